@@ -132,7 +132,83 @@ def units():
     U.fn("op_value_c", harness=custom("op_value_c(&A)", ret="Probe *"), ensures={"value_is_the_payload_in_storage": "RET == (Probe *)&$0->storage"})
     U.fn("op_eq", harness=custom("op_eq(&A, &B)", ret="_Bool"), requires=[REG0, REG1, INV0, INV1], assigns=[],
          ensures={"equal_only_if_both_engaged_with_equal_values": "RET == ($0->hasValue != 0 && $1->hasValue != 0 && %s == %s)" % (VAL("$0"), VAL("$1"))})
-    return [U]
+    return [U, any_unit()]
+
+
+ANY_STUBS = """
+/* interface stubs for the virtuals of Any::handle_base (the stored value behind the type-erased handle) and the delete of a
+ * handle: every virtual call asserts that it is made on a handle that exists (a call through an empty Any's null pointer is a crash) */
+unsigned g_h_deletes, g_h_clones, g_h_same_calls; _Bool g_h_same; void *g_h_same_other;
+void hb_delete(Any_handle_base *h) { __CPROVER_assert(h != 0, "HANDLE delete of a handle that exists"); g_h_deletes++; free(h); }
+Any_handle_base *hb_clone_stub(Any_handle_base *self) { __CPROVER_assert(self != 0, "HANDLE virtual call clone() through an empty Any (null handle): crash"); g_h_clones++; return (Any_handle_base *)verif_malloc(sizeof(Any_handle_int)); }
+std_type_info g_stored_type;
+std_type_info *hb_typeid_stub(Any_handle_base *self) { __CPROVER_assert(self != 0, "HANDLE virtual call valueTypeID() through an empty Any (null handle): crash"); return &g_stored_type; }
+_Bool hb_isSame_stub(Any_handle_base *self, Any_handle_base *other) { __CPROVER_assert(self != 0, "HANDLE virtual call isSame() through an empty Any (null handle): crash"); g_h_same_calls++; g_h_same_other = other; return g_h_same; }
+"""
+
+
+def any_models():
+    from cxx2c import X, parse_type, deref
+    def ti_name(tr, fid, info, e, args, obj):
+        tr.rule("std::type_info::name -> model field")
+        o = deref(tr.rv(obj[0])) if obj[1] else tr.lv(obj[0])
+        if getattr(o, "ty", None) is not None and o.ty.kind == "ptr":
+            o = deref(o)      # (a reference returned by an interface stub is a pointer in C)
+        return X("mem", o, "g_name", ty=parse_type("const char *"))
+    return {"std::type_info::name": ti_name}
+
+
+def any_unit():
+    """utility::Any: which operations reach the type-erased handle, and never through an empty Any"""
+    A = Unit("c09_any", "units/c09_any.cpp", stubs=ANY_STUBS, opts=dict(opaque_std=True, stream_eval_operands=True, opaque=["demangle__chp"], force_records=["std::type_info", "rkcommon::utility::Any::handle_base", "rkcommon::utility::Any::handle<int>"],
+             unique_ptr_delete={"std::unique_ptr<rkcommon::utility::Any::handle_base>": "hb_delete"},
+             stub_bodies=["hb_delete", "hb_clone_stub", "hb_isSame_stub", "hb_typeid_stub"], models=any_models(), ext_records={"std::type_info": [("g_name", "const char *")]},
+             virtual_models={"rkcommon::utility::Any::handle_base::clone": "hb_clone_stub", "rkcommon::utility::Any::handle_base::isSame": "hb_isSame_stub",
+                             "rkcommon::utility::Any::handle_base::valueTypeID": "hb_typeid_stub"}))
+    A.stub("Any::handle_base virtuals / delete of a handle", "interface stubs: clone/isSame/valueTypeID assert they are called on an existing handle and record the call; delete counts and frees")
+    def st(o, tag):
+        return "  _Bool in_engaged_%s = nondet__Bool(); %s.currentValue.p = in_engaged_%s ? (Any_handle_base *)verif_malloc(sizeof(Any_handle_int)) : (Any_handle_base *)0;\n" % (tag, o, tag)
+    reset = "  g_h_deletes = 0; g_h_clones = 0; g_h_same_calls = 0; g_h_same = nondet__Bool(); g_h_same_other = 0; g_stored_type.g_name = \"i\";\n"
+    GA = ["g_h_deletes", "g_h_clones", "g_h_same_calls", "g_h_same_other", "__verif_exc"]
+    ZERO = "g_h_deletes == 0 && g_h_clones == 0 && g_h_same_calls == 0 && __verif_exc == 0"
+    P0, P1 = "$0->currentValue.p", "$1->currentValue.p"
+    ANY_REPLAY = """
+int main()
+{
+  using rkcommon::utility::Any;
+  Any a, b; if (IN_in_engaged_a) a = 1; if (IN_in_engaged_b) b = 2;
+  printf("comparing a %%s Any with a %%s Any / printing the first one ...\\n", IN_in_engaged_a ? "engaged" : "EMPTY", IN_in_engaged_b ? "engaged" : "EMPTY"); fflush(stdout);
+  bool e = (a == b), n = (a != b); std::string s = a.toString();
+  printf("== gave %%d, != gave %%d, toString gave \\"%%s\\"\\n", (int)e, (int)n, s.c_str());
+  bool ok = (e != n) && ((IN_in_engaged_a != IN_in_engaged_b) ? !e : true);
+  printf("REPLAY RESULT: %%s\\n", ok ? "not reproduced" : "violation reproduced on real code");
+  return ok ? 0 : 1;
+}
+"""
+    A.fn("demangle__chp", assumed=True, ensures={"assumed_demangle_returns_some_string": "1"})
+    A.stub("demangle(const char*)", "assumed: returns some string (abi::__cxa_demangle is outside the subset)")
+    A.fn("any_ctor_default", assigns=["*$0"], noalias=True, ensures={"a_default_constructed_Any_is_empty": "%s == 0" % P0})
+    A.fn("any_valid", pre_call=reset + st("o_@0", "a"), requires=[ZERO], assigns=[], ensures={"valid_iff_a_value_is_held": "RET == (%s != 0) && g_h_same_calls == 0 && g_h_clones == 0" % P0})
+    A.fn("any_eq", pre_call=reset + st("o_@0", "a") + st("o_@1", "b"), requires=[ZERO], assigns=GA, noalias=True, replay_native=ANY_REPLAY, ensures={
+        "comparing_two_engaged_wrappers_asks_the_first_value_about_the_second": "IMP(%s != 0 && %s != 0, RET == g_h_same && g_h_same_calls == 1 && g_h_same_other == (void *)%s)" % (P0, P1, P1),
+        "an_empty_and_an_engaged_wrapper_are_not_equal": "IMP((%s == 0) != (%s == 0), !RET)" % (P0, P1),
+        "comparison_never_throws": "__verif_exc == 0"})
+    A.fn("any_ne", pre_call=reset + st("o_@0", "a") + st("o_@1", "b"), requires=[ZERO], assigns=GA, noalias=True, inline=["any_eq"], replay_native=ANY_REPLAY, ensures={
+        "not_equal_is_the_negation_of_equal_for_engaged_wrappers": "IMP(%s != 0 && %s != 0, RET == !g_h_same)" % (P0, P1),
+        "an_empty_and_an_engaged_wrapper_are_not_equal": "IMP((%s == 0) != (%s == 0), RET)" % (P0, P1)})
+    A.fn("any_toString", pre_call=reset + st("o_@0", "a"), requires=[ZERO], assigns=GA, replay_native=ANY_REPLAY, ensures={"printing_never_throws": "__verif_exc == 0"})
+    A.fn("any_ctor_copy", pre_call=reset + st("o_@1", "b"), requires=[ZERO], assigns=GA + ["*$0"], noalias=True, ensures={
+        "a_copy_holds_a_value_exactly_when_its_source_does": "(%s != 0) == (%s != 0)" % (P0, P1),
+        "a_copy_owns_its_own_clone_of_the_value": "IMP(%s != 0, g_h_clones == 1 && %s != %s) && IMP(%s == 0, g_h_clones == 0)" % (P1, P0, P1, P1),
+        "copying_destroys_nothing": "g_h_deletes == 0"})
+    A.fn("any_assign", pre_call=reset + st("o_@0", "a") + st("o_@1", "b") + "  _Bool in_was = in_engaged_a;\n", requires=[ZERO], assigns=GA + ["*$0"], frees=[P0], noalias=True, inline=["any_ctor_copy", "any_dtor"], ensures={
+        "after_assignment_the_target_holds_a_value_exactly_when_the_source_does": "(%s != 0) == (%s != 0)" % (P0, P1),
+        "the_target_owns_its_own_clone": "IMP(%s != 0, g_h_clones == 1 && %s != %s)" % (P1, P0, P1),
+        "the_previous_value_is_destroyed_exactly_once_and_nothing_else": "g_h_deletes == (__CPROVER_old(%s) != 0 ? 1u : 0u)" % P0,
+        "returns_the_target": "RET == $0"})
+    A.fn("any_dtor", pre_call=reset + st("o_@0", "a"), requires=[ZERO], assigns=GA + ["*$0"], frees=[P0], ensures={
+        "destruction_destroys_the_held_value_exactly_once": "g_h_deletes == (__CPROVER_old(%s) != 0 ? 1u : 0u)" % P0})
+    return A
 
 
 def extra_checks(units, wd, tier, seed):
@@ -165,7 +241,7 @@ def extra_checks(units, wd, tier, seed):
 META = dict(
     level="proof",
     level_text="Optional<Probe> is instantiated with a probe payload whose special member functions are stubs that assert the liveness discipline in ghost state (no construction over a live object, no assignment/copy/destruction on storage without a live object). Every constructor, assignment (incl. self-assignment and assignment from empty wrappers), reset, emplace and the destructor is enforced against the invariant 'hasValue <=> the storage holds a live payload' and the value-type postconditions written from the statement (engaged exactly when the last operation gave a value, value equals the source's, sources unchanged, exactly one destruction per construction), for arbitrary engaged/empty pre-states. Storage alignment is a static obligation on clang's record layout of the instantiation.",
-    level_note="One payload type (probe with an int) stands for every payload satisfying the liveness discipline; cross-type Optional<U>->Optional<T> conversions, value_or, make_optional, toString and the Any class are NOT under contract (Any needs unique_ptr + typeid + virtual dispatch models). History = induction over operations preserving the invariant (stated, not mechanised).",
+    level_note="One payload type (probe with an int) stands for every payload satisfying the liveness discipline; cross-type Optional<U>->Optional<T> conversions, value_or, make_optional and Optional's toString are NOT under contract. utility::Any (unit c09_any): default/copy construction, copy assignment, destruction, valid, ==, != and toString are proved against interface stubs of the type-erased handle (clone / isSame / valueTypeID / delete) with an exact single-ownership model of std::unique_ptr: a copy holds a value exactly when its source does and owns its own clone, assignment destroys the previous value exactly once, destruction destroys the held value exactly once, and NO operation reaches the handle of an empty Any (comparison and printing never crash). Any::get<T>/is<T> (typeid) and the templated value constructor/assignment are not under contract here (the typed reads are covered in C10 against stubs). History = induction over operations preserving the invariant (stated, not mechanised).",
     assumptions=["probe operations' ghost model (contracts/c09.py)", "two tracked storages per operation"],
-    unverified=["Any (valid/is/get/copy/==/toString)", "Optional<U> converting constructors/assignments", "value_or, make_optional, comparison operators other than ==", "getEnvVar"],
+    unverified=["Any::get<T> / is<T> (typeid) and Any(T) / operator=(T)", "Optional<U> converting constructors/assignments", "value_or, make_optional, comparison operators other than ==", "getEnvVar"],
 )
